@@ -398,7 +398,21 @@ func genC03(c *Ctx) {
 	}
 	bad := ""
 	n := 0
-	for v := 0; v < 4096 && bad == ""; v++ {
+	// the 4096 specified values, and the same low bits under bits the specification does not name (a FLAG
+	// column holds any integer: a setter writes exactly its bit and no other bit of ANY value)
+	var vals []int
+	for v := 0; v < 4096; v++ {
+		vals = append(vals, v)
+	}
+	for _, hi := range []int{0x1000, 0x2000, 0x8000, 0x10000, 0x7fff0000, 1 << 40, 1 << 62, -1 << 12, math.MinInt} {
+		for _, lo := range []int{0, 1, 0x400, 0x401, 0x800, 0xaaa, 0x555, 0xfff} {
+			vals = append(vals, hi|lo)
+		}
+	}
+	for _, v := range vals {
+		if bad != "" {
+			break
+		}
 		for bit, a := range accs {
 			f := sam.Flag(v)
 			n++
@@ -420,7 +434,7 @@ func genC03(c *Ctx) {
 			}
 		}
 	}
-	c.add(Case{Kind: "flags", Nontrivial: true, Oracle: bad, Note: fmt.Sprintf("exhaustive flag table: %d accessor evaluations, 2x setters", n)})
+	c.add(Case{Kind: "flags", Nontrivial: true, Oracle: bad, Note: fmt.Sprintf("flag table, all 4096 specified values and 72 values with higher bits set: %d accessor evaluations, 2x setters", n)})
 }
 
 // ---------------- C04 ----------------
